@@ -412,8 +412,24 @@ def c_opt_unwrap_or(eng, st, fr, f, args, site):
                 rs = [(ns, Top(ret_ty(eng, site), "dflt#%d" % eng._hv()))]
             outs.extend(rs)
         else:
-            outs.append((ns, Top(ret_ty(eng, site), "dflt#%d" % eng._hv())))
+            outs.append((ns, default_value(eng, ns, ret_ty(eng, site))))
     return outs
+
+
+def default_value(eng, st, rt):
+    """`T::default()` for the types whose default the engine models: integers 0, bool false, Option None, empty
+    String / Vec; anything else is an unknown value."""
+    if rt is None:
+        return Top(rt, "dflt#%d" % eng._hv())
+    t = eng.T.t(rt)
+    if t["k"] == "bool":
+        return FALSE
+    ii = eng.T.int_info(rt)
+    if ii and t["k"] in ("uint", "int"):
+        return int_const(0, ii[0], ii[1])
+    if t["k"] == "adt" and t.get("path", "").endswith("option::Option"):
+        return Enum(rt, ((0, ()),), "dflt")
+    return Top(rt, "dflt#%d" % eng._hv())
 
 
 @contract(r"^(std|core)::result::Result::<T, E>::(unwrap_or|unwrap_or_else|unwrap_or_default)$")
@@ -433,7 +449,7 @@ def c_res_unwrap_or(eng, st, fr, f, args, site):
                 rs = [(ns, Top(ret_ty(eng, site), "dflt#%d" % eng._hv()))]
             outs.extend(rs)
         else:
-            outs.append((ns, Top(ret_ty(eng, site), "dflt#%d" % eng._hv())))
+            outs.append((ns, default_value(eng, ns, ret_ty(eng, site))))
     return outs
 
 
@@ -727,8 +743,14 @@ def c_bit_counts(eng, st, fr, f, args, site):
 
 @contract(r"^(std|core)::convert::num::<impl (std|core)::convert::From<[ui]\d+> for [ui](\d+|size)>::from$")
 def c_from_int(eng, st, fr, f, args, site):
-    v = args[0]
-    ii = eng.T.int_info(ret_ty(eng, site))
+    v = force(eng, st, args[0])
+    rt_ = ret_ty(eng, site)
+    ii = eng.T.int_info(rt_) if rt_ is not None and eng.T.t(rt_)["k"] in ("uint", "int") else None
+    if ii is None:
+        # applied as a function value (`opt.map(usize::from)`): the target type is the impl's Self type
+        m_ = re.search(r"for ([ui])(\d+|size)>::from$", f["path"]) or re.search(r"for ([ui])(\d+|size)>::from$", f.get("resolved") or "")
+        if m_:
+            ii = (64 if m_.group(2) == "size" else int(m_.group(2)), m_.group(1) == "i")
     if isinstance(v, Int) and ii:
         return [(st, Int(v.lin, v.bits + (0,) * (ii[0] - v.w) if v.bits is not None and not v.signed else None, ii[0], ii[1], v.tags))]
     return None
